@@ -167,8 +167,9 @@ PROPS = {
             "leanchecker": ["GcpVerif.Proofs.Sync"], "trusted_base": SYNC_TB,
             "assumptions": ["soundness of the AST extraction (trusted)", "balancer callbacks are serialised by gRPC"]},
     "C15": {"harnesses": ["gme"], "lake_targets": ["GcpVerif"],
-            "theorems": gme_thms(["rpc_routes_current", "pickME_known", "pickME_unknown", "pickME_no_name", "pools_exact_after_update", "only_missing_dialled"]),
-            "leanchecker": ["GcpVerif.Proofs.GME"], "trusted_base": GME_TB,
+            "theorems": gme_thms(["rpc_routes_current", "pickME_known", "pickME_unknown", "pickME_no_name", "pools_exact_after_update", "only_missing_dialled"]) +
+                        [("GcpVerif.Proofs.GME3", "GcpVerif.GME." + n) for n in ["update_syncs_status", "update_syncs_status_reach", "fold_sync_status"]],
+            "leanchecker": ["GcpVerif.Proofs.GME", "GcpVerif.Proofs.GME3"], "trusted_base": GME_TB,
             "assumptions": ["'within bounded time' is observed only through the monitor's notification being delivered by the harness"]},
     "C16": {"harnesses": ["gme"], "lake_targets": ["GcpVerif"],
             "theorems": gme_thms(["failed_update_is_identity", "invalid_options_rejected", "dial_failure_rejected", "close_releases_all", "rpc_routes_current"]) +
